@@ -1,6 +1,6 @@
 (* C04 model runner (conversion glue only, no model logic).
    stdin, one case per line (whitespace separated tokens):
-     <page_size> <nt> <spec>*nt <filters: string over u,s,x or -> <nops> <op>*nops
+     <page_size> <nt> <spec>*nt <filters: string over u,s,x,a,b (a/b = simplifier over dict_a/dict_b) or -> <nops> <op>*nops
    cand  := cp.cp...:comment:type:start:end:quality
    spec  := U <cand> | U0 | E <cand> | F <n> <cand>*n | N <n> <spec>*n | K <spec> | D <spec>
           | P <spec> | S <spec> | X <spec>
@@ -65,12 +65,20 @@ let () =
       let line = input_line stdin in
       toks := Array.of_list (split_ws line);
       pos := 0;
+      if line = "DICTS" then begin
+        (* the two simplifier dictionaries, as OpenCC text dictionary lines: name key value value ... *)
+        List.iter (fun (nm, d) -> List.iter (fun (k, vs) ->
+            Printf.printf "%s %d %s\n" nm (int_of_n k) (String.concat " " (List.map (fun v -> string_of_int (int_of_n v)) vs))) d)
+          [("a", dict_a); ("b", dict_b)];
+        print_endline "END"
+      end else
       (try
         let ps = int () in
         let nt = int () in
         let specs = many nt parse_spec in
         let fs = List.filter_map (fun ch -> match ch with 'u' -> Some FUniquifier | 's' -> Some FSingleChar
-                                                      | 'x' -> Some FCharset | _ -> None)
+                                                      | 'x' -> Some FCharset | 'a' -> Some (FSimplifier (dict_conv dict_a))
+                                                      | 'b' -> Some (FSimplifier (dict_conv dict_b)) | _ -> None)
             (List.of_seq (String.to_seq (tok ()))) in
         let nops = int () in
         let ops = many nops parse_op in
